@@ -14,7 +14,22 @@ import (
 // hangTick: a call into go9p that is still in progress, unchanged, over two
 // consecutive ticks (>= 20 s, ~10^6 x the normal latency) is a hang. The clock
 // is used for nothing else.
-var hangTick = 10 * time.Second
+const hangTick = 10 * time.Second
+
+// After a hang with a culprit inside go9p has been established with the full
+// deadline, rapid re-runs variants of the case to minimise it; those re-runs
+// use a shorter tick (still ~10^5 x the normal latency) so that a red run ends
+// in minutes. The verdict never depends on the short tick.
+const hangTickAfterHang = 2 * time.Second
+
+var hangSeen atomic.Bool
+
+func tick() time.Duration {
+	if hangSeen.Load() {
+		return hangTickAfterHang
+	}
+	return hangTick
+}
 
 type outcome struct {
 	err          error  // violation (or harness error, prefixed "harness:")
@@ -40,7 +55,8 @@ func guarded(nworkers int, body func(ws []worker) error) outcome {
 		}()
 		done <- body(ws)
 	}()
-	timer := time.NewTimer(hangTick)
+	period := tick()
+	timer := time.NewTimer(period)
 	defer timer.Stop()
 	last := make([]int64, nworkers)
 	strikes := make([]int, nworkers)
@@ -66,9 +82,9 @@ func guarded(nworkers int, body func(ws []worker) error) outcome {
 				last[i] = v
 			}
 			if stuck >= 0 {
-				return classifyHang(stuck, (ctr[stuck].Load()+1)/2)
+				return classifyHang(stuck, (ctr[stuck].Load()+1)/2, 2*period)
 			}
-			timer.Reset(hangTick)
+			timer.Reset(period)
 		}
 	}
 }
@@ -119,16 +135,17 @@ func culprits(dump string) []string {
 	return out
 }
 
-func classifyHang(workerIdx int, call int64) outcome {
+func classifyHang(workerIdx int, call int64, waited time.Duration) outcome {
 	dump := dumpAll()
 	cs := culprits(dump)
 	if len(cs) == 0 {
-		msg := fmt.Sprintf("C20: call %d of worker %d did not return within %v but no goroutine is inside go9p (starved machine or harness trouble)", call, workerIdx, 2*hangTick)
+		msg := fmt.Sprintf("C20: call %d of worker %d did not return within %v but no goroutine is inside go9p (starved machine or harness trouble)", call, workerIdx, waited)
 		hx.Inconclusive(msg)
 		return outcome{inconclusive: msg}
 	}
+	hangSeen.Store(true)
 	if len(cs) > 6 {
 		cs = cs[:6]
 	}
-	return outcome{err: fmt.Errorf("call %d of worker %d did not return within %v; goroutines inside go9p:\n%s", call, workerIdx, 2*hangTick, strings.Join(cs, "\n\n"))}
+	return outcome{err: fmt.Errorf("call %d of worker %d did not return within %v; goroutines inside go9p (including any left from earlier hung cases):\n%s", call, workerIdx, waited, strings.Join(cs, "\n\n"))}
 }
